@@ -1,7 +1,7 @@
 """C11 - parsed transactions equal the spreadsheet rows for any column layout."""
 import ast
 import z3
-from pyvc.driver import custom, lemma
+from pyvc.driver import custom, lemma, fn
 from pyvc import astcheck as A, dtable as D
 from pyvc.base import VC
 from pyvc.spec import lemma as _lemma
@@ -17,7 +17,8 @@ EXPLANATION = ("(rows) The decision table of the row loop of parse_ods (symbolic
                "{argument: data[position] for argument, position in header.items()} over the header map of the table, and _validate_header_section "
                "builds that map as field -> int(column) while rejecting negative, duplicate and unknown entries; the three per-table accessors pass "
                "their own map. Unmapped columns are never read (the comprehension reads mapped positions only); an unmapped optional field is simply "
-               "absent from the keyword pack, so the constructor default applies (C04 proves the documented defaults). (numbers) every numeric "
+               "absent from the keyword pack, so the constructor default applies; the constructors' own postconditions (fields stored as given, documented "
+               "defaults, fiat fee = crypto fee x spot price and its inclusion in fiat_in_with_fee) are proved here by symbolic execution of their bodies. (numbers) every numeric "
                "constructor parameter is converted by RP2Decimal(f'{value:.11f}') - a z3 lemma bounds the rounding error by 5e-12. (fee split) the "
                "keyword bindings of the two constructor calls in _create_and_process_transaction are compared with the statement: same instant, asset, "
                "exchange, holder, spot price; acquisition keeps crypto_in and the fiat fields with crypto_fee dropped; the artificial out-transaction has "
@@ -29,8 +30,16 @@ ASSUMPTIONS = TRUSTED
 E2E = {"quick": 3, "thorough": 60, "on_doubt": 8, "cli": True}
 
 
+CTOR_LABELS = ("fiat_fee_from_crypto_fee", "fiat_fee_supplied", "crypto_fee_stored", "fiat_in_no_fee", "fiat_in_with_fee", "crypto_in_stored", "spot_price_stored", "row_is_id", "asset_stored",
+               "amounts_stored", "fiat_out_no_fee", "fiat_fee", "crypto_out_with_fee", "fee_is_difference", "fiat_fee_valued_at_spot", "exchange_holder_known", "accounts_known")
+
+
+def vc_filter(vc):
+    return vc.kind != "post" or not vc.func.endswith(".__init__") or any(l in vc.label for l in CTOR_LABELS)
+
+
 def items(pr):
-    return [custom("rows", rows), custom("columns", columns), custom("numbers", numbers), custom("fee_split", fee_split), lemma("C11.rounding"), lemma("C11.fee_model")]
+    return [fn("rp2.in_transaction.InTransaction.__init__"), fn("rp2.out_transaction.OutTransaction.__init__"), fn("rp2.intra_transaction.IntraTransaction.__init__"), custom("rows", rows), custom("columns", columns), custom("numbers", numbers), custom("fee_split", fee_split), lemma("C11.rounding"), lemma("C11.fee_model")]
 
 
 def rows(pr):
